@@ -93,6 +93,29 @@ example : decodeOffset (encodeOffset 1250000000) = 1250000000 ∧ decodeOffset (
     offsetOk (2147483648000000000 : Int64).toInt = false := by
   decide
 
+/-! ### what the three conversions compute, for ALL 64-bit arguments (wrap-around included)
+
+  Written with literals: 4294967296 = 2^32, 18446744073709551616 = 2^64, 262144 = 2^18, 16777216 = 2^24,
+  18446744071500562816 = 2^64 − 2208988800 (subtracting the epoch offset modulo 2^64). -/
+
+/-- `toNtpTime`: the instant in units of 2^-32 s, rounded down, plus the 1900→1970 offset, modulo 2^64 -/
+theorem c18_toNtp_is_floor (u : UInt64) :
+    (toNtpTime u).toNat =
+      (u.toNat * 4294967296 / 1000000000 + 2208988800 * 4294967296) % 18446744073709551616 :=
+  toNtp_floor u
+
+/-- `toTime`: the NTP time in nanoseconds, rounded down, minus the offset, modulo 2^64 -/
+theorem c18_toTime_is_floor (t : UInt64) :
+    (toTime t).toNat =
+      (t.toNat * 1000000000 / 4294967296 + 18446744071500562816 * 1000000000) % 18446744073709551616 :=
+  toTime_floor t
+
+/-- the 24 bits that `NewAbsSendTimeExtension(t)` puts on the wire: the instant as a 6.18 fixed-point
+    number of seconds, rounded down, modulo 64 s (the epoch offset is a multiple of 64 s and drops out) -/
+theorem c18_abs_send_time_is_6_18 (u : UInt64) :
+    (newAbsSendTime u &&& 0xFFFFFF).toNat = u.toNat * 262144 / 1000000000 % 16777216 :=
+  abs_send_time_floor u
+
 /-! ### the stated ranges and tolerances are tight -/
 
 /-- the tolerance 3815 ns is attained (so 3814 ns, i.e. ⌊2^-18 s⌋, would be false), with no delay at all -/
